@@ -62,6 +62,11 @@ fn main() {
         println!("{}", set.len());
         return;
     }
+    if args.prop == "gen12" {
+        // scenario generator for the jet1090 snapshot driver (C12); the judge is checkers/c12.py
+        props::gen12::run(&args);
+        return;
+    }
     util::install_panic_hook();
     let mut rep = Report::new(&args.prop);
     match args.prop.as_str() {
